@@ -15,6 +15,7 @@
 #include <atomic>
 #include <pthread.h>
 #include <sched.h>
+#include <signal.h>
 #include "lib/ebus/protocol_direct.h"
 #include "lib/ebus/device_trans.h"
 #include "lib/utils/clock.h"
@@ -65,6 +66,7 @@ struct Cfg {
   std::vector<AnsDef> answers;
   long maxNodes = 600000;
   bool escQQ = false;
+  bool enhSplit = false;     // enhanced: read chunks may end inside a two-byte frame (needs chunk2 for symbol+half)
   bool arbNone = true;       // the arbitration byte may vanish from the wire (no echo at all)
   bool chunk2 = false;       // deliveries of two symbols in one transport read chunk
   bool lateEcho = false;     // the wire image of the arbitration byte may arrive after a read timeout
@@ -97,7 +99,7 @@ static void parseArg(const std::string& a) {
   else if (k == "keyseen") C.keySeen = b(); else if (k == "reconnect") C.reconnect = b(); else if (k == "maxnodes") C.maxNodes = atol(v.c_str());
   else if (k == "escqq") C.escQQ = b();
   else if (k == "autopoll") C.autoPoll = b();
-  else if (k == "lateecho") C.lateEcho = b(); else if (k == "chunk2") C.chunk2 = b(); else if (k == "arbnone") C.arbNone = b();
+  else if (k == "lateecho") C.lateEcho = b(); else if (k == "chunk2") C.chunk2 = b(); else if (k == "arbnone") C.arbNone = b(); else if (k == "enhsplit") C.enhSplit = b();
   else if (k == "enhlong") C.enhLongForm = b(); else if (k == "enhfeat") C.enhFeatures = (uint8_t)atoi(v.c_str());
   else if (k == "events") g_mask = "," + v + ",";
   else if (k == "req") {  // req=<kind>:<hex master without crc>[:restarts]
@@ -199,7 +201,7 @@ struct FakeTransport : public Transport {
   }
   void close() override {
     if (!valid) return;
-    valid = false; buf.clear(); org.clear(); ev("[\"close\"]");
+    valid = false; buf.clear(); org.clear(); half = -1; ev("[\"close\"]");
     if (m_listener) m_listener->notifyTransportStatus(false);
   }
   bool isValid() override { return valid; }
@@ -207,6 +209,7 @@ struct FakeTransport : public Transport {
   // enhanced mode: the transport is an adapter simulator speaking the enhanced protocol (whole frames per chunk;
   // splitting inside frames is C14's subject).  armed = master address the adapter shall arbitrate with, or SYN.
   uint8_t armed = SYN;
+  int half = -1, halfOrg = 0;  // second byte of a frame whose first byte was delivered at the end of the previous read chunk
   void frame(uint8_t cmd, uint8_t d, uint8_t o) { buf.push_back((uint8_t)(0xC0 | (cmd << 2) | (d >> 6))); org.push_back(0); buf.push_back((uint8_t)(0x80 | (d & 0x3f))); org.push_back(o); }
   void wire(uint8_t s, uint8_t o) {
     g_trk.advance(s);
@@ -260,6 +263,7 @@ struct FakeTransport : public Transport {
   result_t read(unsigned int timeout, const uint8_t** data, size_t* len) override {
     if (g_runMode) g_reads++;
     if (!valid) return RESULT_ERR_DEVICE;
+    if (half >= 0 && timeout > 0) { buf.push_back((uint8_t)half); org.push_back((uint8_t)halfOrg); half = -1; }  // the rest of the split frame arrives
     if (buf.empty()) {
       if (timeout == 0) return RESULT_ERR_TIMEOUT;
       std::string d = "to";
@@ -272,10 +276,17 @@ struct FakeTransport : public Transport {
         return RESULT_ERR_TIMEOUT;
       }
       if (d == "er") { ev("[\"err\",\"read\"]"); g_trk.silence(); close(); return RESULT_ERR_DEVICE; }
+      bool split = !d.empty() && d[d.size() - 1] == '~';  // enhanced: the chunk ends inside the frame of the last symbol
+      if (split) d.erase(d.size() - 1);
       for (size_t i = 0; i + 1 < d.size(); i += 2) {
         uint8_t sy = (uint8_t)strtoul(d.substr(i, 2).c_str(), nullptr, 16);
-        wire(sy, 0);
-        if (C.enhanced && sy == SYN && armed != SYN) adapterArbitrate();
+        if (split && i + 2 >= d.size() && C.enhanced) {
+          g_trk.advance(sy);
+          buf.push_back((uint8_t)(0xC0 | (1 << 2) | (sy >> 6))); org.push_back(0); half = 0x80 | (sy & 0x3f); halfOrg = 0;
+        } else {
+          wire(sy, 0);
+          if (C.enhanced && sy == SYN && armed != SYN) adapterArbitrate();
+        }
       }
     }
     *data = buf.data(); *len = buf.size();
@@ -358,7 +369,7 @@ struct Snap {
   int arbMaster, arbCheck;
   int enhResetAge, enhResetRequested, enhFeatures, enhInfoLen, enhInfoPos; std::vector<uint8_t> enhInfoBuf;
   // transport + env
-  std::vector<uint8_t> buf, org; int valid, armed;
+  std::vector<uint8_t> buf, org; int valid, armed, half;
   Tracker trk;
   std::string key() const;
   std::string json() const;
@@ -406,7 +417,7 @@ struct VerifAccess {
       s->enhResetAge = e->m_resetTime == 0 ? 2 : (e->m_resetTime + 3 >= (long)g_sec ? 0 : 1); s->enhResetRequested = e->m_resetRequested; s->enhFeatures = e->m_extraFeatures;
       s->enhInfoLen = (int)e->m_infoLen; s->enhInfoPos = (int)e->m_infoPos;
       if (e->m_infoLen) s->enhInfoBuf.assign(e->m_infoBuf, e->m_infoBuf + std::min<size_t>(e->m_infoPos, sizeof(e->m_infoBuf))); }
-    s->buf = t->buf; s->org = t->org; s->valid = t->valid; s->armed = t->armed; s->trk = g_trk;
+    s->buf = t->buf; s->org = t->org; s->valid = t->valid; s->armed = t->armed; s->half = t->half; s->trk = g_trk;
   }
   static void restore(DirectProtocolHandler* h, BaseDevice* d, FakeTransport* t, const Snap& s) {
     g_sec = 200000; g_ms = 5000000;
@@ -434,7 +445,7 @@ struct VerifAccess {
       e->m_resetTime = s.enhResetAge == 2 ? 0 : (s.enhResetAge == 0 ? (long)g_sec : (long)g_sec - 10); e->m_resetRequested = s.enhResetRequested; e->m_extraFeatures = (symbol_t)s.enhFeatures;
       e->m_infoLen = (size_t)s.enhInfoLen; e->m_infoPos = (size_t)s.enhInfoPos; for (size_t i = 0; i < s.enhInfoBuf.size(); i++) e->m_infoBuf[i] = s.enhInfoBuf[i];
       e->m_infoReqTime = (long)g_sec; }
-    t->buf = s.buf; t->org = s.org; t->valid = s.valid; t->armed = (uint8_t)s.armed; g_trk = s.trk;
+    t->buf = s.buf; t->org = s.org; t->valid = s.valid; t->armed = (uint8_t)s.armed; t->half = s.half; t->halfOrg = 0; g_trk = s.trk;
   }
   static int arbCheck(BaseDevice* d) { return (int)d->m_arbitrationCheck; }
   static int arbMaster(BaseDevice* d) { return d->m_arbitrationMaster; }
@@ -448,7 +459,7 @@ static void kvi(std::string* k, const std::vector<int>& v) { k->push_back((char)
 std::string Snap::key() const {
   std::string k;
   int f[] = {state, escape, crc, crcValid, repeat, nextSendPos, cur, answering, remainLock, lockCount, genSyn, lstate, conflict, age, reconnect,
-             arbMaster, arbCheck, enhResetAge, enhResetRequested, enhFeatures, enhInfoLen, enhInfoPos, valid, armed};
+             arbMaster, arbCheck, enhResetAge, enhResetRequested, enhFeatures, enhInfoLen, enhInfoPos, valid, armed, half};
   for (int x : f) { k.push_back((char)(x & 0xff)); k.push_back((char)((x >> 8) & 0xff)); }
   kv(&k, command); kv(&k, response); kv(&k, buf); kv(&k, org); kv(&k, enhInfoBuf);
   if (C.keySeen) { kv(&k, seen); k.push_back((char)masterCount); }
@@ -594,8 +605,12 @@ static void delivChoices2(const Tracker& t, std::vector<std::string>* o, int lat
     if (x == "to" || x == "tl" || x == "er") continue;
     Tracker t2 = t; t2.advance((uint8_t)strtoul(x.c_str(), nullptr, 16));
     std::vector<std::string> second; delivChoices(t2, &second, -1);
-    for (const std::string& y : second) if (y != "to" && y != "tl" && y != "er") o->push_back(x + y);
+    for (const std::string& y : second) if (y != "to" && y != "tl" && y != "er") {
+      o->push_back(x + y);
+      if (C.enhanced && C.enhSplit) o->push_back(x + y + "~");   // the chunk ends inside the frame of y
+    }
   }
+  if (C.enhanced && C.enhSplit) for (const std::string& x : first) if (x != "to" && x != "tl" && x != "er") o->push_back(x + "~");
 }
 static void echoChoices(const Tracker& t, uint8_t w, std::vector<std::string>* o) {
   o->clear(); o->push_back("s");
@@ -791,10 +806,23 @@ static int cmdRandom(const char* outPath, long steps) {
 // ---------------------------------------------------------------- run mode: the real run() thread against client threads
 struct Client { int id; int ops; pthread_t th; std::atomic<long> startReads; std::atomic<int> busy; std::atomic<int> done; };
 static std::vector<Client*> g_clients;
+static std::atomic<int> g_abortRun(0);
+static const char* g_runOut = nullptr;
+static void writeRunTrace(const char* outPath);
+static void crashHandler(int sig) {
+  // the real code crashed while real threads were running: keep what was observed and name it (never happens on a tree
+  // that satisfies C04; a use of a request after its completion typically ends here)
+  static std::atomic<int> once(0);
+  if (once.exchange(1)) _exit(0);
+  pthread_mutex_trylock(&g_evMutex); pthread_mutex_unlock(&g_evMutex);
+  char b[96]; snprintf(b, sizeof b, "[\"bad\",\"crash-in-real-code-during-run\",%d]", sig);
+  g_runEvents.push_back(b);
+  writeRunTrace(g_runOut); fflush(nullptr); _exit(0);
+}
 static void* clientMain(void* arg) {
   Client* c = (Client*)arg;
   vf::Rng rng(vf::seedFromEnv() * 1000 + c->id);
-  for (int k = 0; k < c->ops; k++) {
+  for (int k = 0; k < c->ops && !g_abortRun; k++) {
     bool useSendAndWait = rng.chance(1, 2);
     c->startReads = g_reads.load(); c->busy = 1;
     if (useSendAndWait) {
@@ -810,7 +838,13 @@ static void* clientMain(void* arg) {
       q->status = 1; q->result = 0; q->slaveLen = 0;
       ev("[\"sub\"," + std::to_string(c->id) + ",0," + jb(*m) + ",0]");
       result_t res = g_h->addRequest(q, true);   // waits on the finished queue like a real client
-      (void)res;
+      if (res != RESULT_OK || q->status != 2) {
+        // released although the request was not completed: log it and end the run at once (the request object is still
+        // owned by the bus thread; continuing would only make the harness crash)
+        ev("[\"bad\",\"waiter-released-without-completion\"," + std::to_string(c->id) + "," + std::to_string((int)res) + "]");
+        g_abortRun = 1;
+        return nullptr;
+      }
       ev("[\"fin\"," + std::to_string(c->id) + "," + std::to_string(q->result) + "," + vf::jbytes(q->slave()) + "]");
       q->status = 0;
     }
@@ -820,23 +854,27 @@ static void* clientMain(void* arg) {
   c->done = 1;
   return nullptr;
 }
+static std::atomic<int> g_writing(0);
 static void writeRunTrace(const char* outPath) {
+  if (g_writing.exchange(1)) for (;;) pause();  // somebody else (crash handler / abort path) is already writing: let it finish and exit
   vf::Out out(outPath);
   long id = 1; size_t i = 0;
-  pthread_mutex_lock(&g_evMutex);
-  while (i < g_runEvents.size()) {
+  pthread_mutex_trylock(&g_evMutex);
+  std::vector<std::string> evs0(g_runEvents);  // a copy: other threads may still be appending
+  pthread_mutex_unlock(&g_evMutex);
+  while (i < evs0.size()) {
     std::string evs;
-    for (int k = 0; k < 25 && i < g_runEvents.size(); k++, i++) { if (!evs.empty()) evs += ","; evs += g_runEvents[i]; }
+    for (int k = 0; k < 25 && i < evs0.size(); k++, i++) { if (!evs.empty()) evs += ","; evs += evs0[i]; }
     out.raw("{\"id\":" + std::to_string(id) + ",\"succ\":[{\"in\":\"run\",\"ev\":[" + evs + "],\"to\":" + std::to_string(id + 1) + "}]}\n");
     id++;
   }
-  pthread_mutex_unlock(&g_evMutex);
   out.raw("{\"id\":" + std::to_string(id) + ",\"succ\":[]}\n");
-  printf("{\"nodes\":%ld,\"edges\":%ld,\"fixpoint\":true,\"run\":true,\"events\":%zu,\"reads\":%ld}\n", id, id - 1, g_runEvents.size(), g_reads.load());
+  printf("{\"nodes\":%ld,\"edges\":%ld,\"fixpoint\":true,\"run\":true,\"events\":%zu,\"reads\":%ld}\n", id, id - 1, evs0.size(), g_reads.load());
 }
 static int cmdRun(const char* outPath, int nclients, int ops) {
   static Input runIn; static vf::Rng rng(vf::seedFromEnv());
-  g_runMode = true; g_in = &runIn; g_rng = &rng;
+  g_runMode = true; g_in = &runIn; g_rng = &rng; g_runOut = outPath;
+  signal(SIGSEGV, crashHandler); signal(SIGABRT, crashHandler); signal(SIGBUS, crashHandler);
   for (int c = 0; c < nclients; c++) { Client* cl = new Client(); cl->id = c; cl->ops = ops; cl->busy = 0; cl->startReads = 0; cl->done = 0; g_clients.push_back(cl); }
   g_h->start("bus");
   for (Client* cl : g_clients) pthread_create(&cl->th, nullptr, clientMain, cl);
@@ -849,7 +887,7 @@ static int cmdRun(const char* outPath, int nclients, int ops) {
     }
     bool allDone = true;
     for (Client* cl : g_clients) if (!cl->done) allDone = false;
-    if (stuck) { writeRunTrace(outPath); fflush(nullptr); _exit(0); }
+    if (stuck || g_abortRun) { writeRunTrace(outPath); fflush(nullptr); _exit(0); }
     if (allDone) break;
     (void)any; usleep(1000);
   }
